@@ -670,6 +670,9 @@ def run(chk):
     chk.extra["cursors_analysed"] = n_cursors
     if n_cursors < 4:
         raise core.AnalysisBroken("only %d token cursors found (UDQParser, Action::Parser, Action::Condition, make_udq_tokens are four on the pinned tree)" % n_cursors)
+    from verif import fallthrough
+    fallthrough.run(chk, "C20", floor=20)
+
     chk.assumptions += [
         "C20.cursor: a token fetched at the cursor has type `end` exactly when the cursor is at the end (checked: the fetch returns the end token under its at-end test); predicates P(token.type) are false for `end`",
         "call graph from resolved callee names (overloads merged, every override of a same-named virtual method included): an over-approximation of reachability",
